@@ -842,7 +842,20 @@ func checkSyncComplete(r *Run, p *Prog) {
 	r.ObPath("C12.R2.complete", "sync volunteers the members the initiator does not know on every path", posOf(p, volLoop), path == nil,
 		"a return is reachable without the pass over the local members: with incomparable views the initiator never learns the members only the peer knows", path)
 	// (b) no iteration of the digest loop ends before the local record was looked up and compared
+	// the presence flag of the local lookup "<rec>, <flag> := <snapshot>.Nodes[dig.Key]"
+	var present types.Object
+	inspectNoLit(digLoop.Body, func(y ast.Node) bool {
+		if as, ok := y.(*ast.AssignStmt); ok && len(as.Lhs) == 2 && len(as.Rhs) == 1 {
+			if _, isIdx := ast.Unparen(as.Rhs[0]).(*ast.IndexExpr); isIdx && present == nil {
+				present = objOf(fn, as.Lhs[1])
+			}
+		}
+		return true
+	})
 	isCompare := func(n ast.Node) bool {
+		if _, isAssign := n.(*ast.AssignStmt); isAssign {
+			return false // the lookup itself is not a comparison
+		}
 		found := false
 		inspectNoLit(n, func(y ast.Node) bool {
 			if call, ok := y.(*ast.CallExpr); ok {
@@ -850,10 +863,8 @@ func checkSyncComplete(r *Run, p *Prog) {
 					found = true
 				}
 			}
-			if be, ok := y.(*ast.UnaryExpr); ok && be.Op == token.NOT {
-				if o := objOf(fn, be.X); o != nil && o.Name() == "ok" {
-					found = true
-				}
+			if id, ok := y.(*ast.Ident); ok && present != nil && objOf(fn, id) == present {
+				found = true // the "do we know this member at all" test
 			}
 			return true
 		})
